@@ -119,13 +119,11 @@ def extract_window(ctx, prog, rule):
         ok_adv = t[0] == "binop" and t[1] == "Add" and is_self_field(t[2], "offset") and strip_casts(t[3]) == ("param", 2)
     ctx.ob(rule, "window/advance", ok_adv, "offset += bits exactly once")
     for bi in f.cfg():
-        t = f.blocks[bi]["term"]
-        if t["k"] == "switch":
-            dl = op_place(t["discr"])
-            d = strip(R.place(dl)) if dl else None
-            if d and d[0] == "binop" and d[1] in ("Lt", "Ge") and strip(d[2])[0] == "call" and strip(d[2])[1].endswith("::available") and strip_casts(d[3]) == ("param", 2):
-                e = switch_edges(f, bi)
-                short_b = e["otherwise"] if d[1] == "Lt" else e.get("0")
+        ot = order_test(f, R, bi)
+        if ot is not None:
+            oe = order_edges(ot, lambda x: strip(x)[0] == "call" and strip(x)[1].endswith("::available"), lambda y: strip_casts(y) == ("param", 2))
+            if oe is not None:
+                short_b = oe[0]
                 nones = [b for b, s, cls, p in f.ret_assignments() if cls == "none"]
                 ok_guard = bool(nones) and all(b in reach(f.cfg(), [short_b]) for b in nones) and not any(b in reach(f.cfg(), [short_b]) for b, s, cls, p in f.ret_assignments() if cls == "some")
     ctx.ob(rule, "window/availability-guard", ok_guard, "extract returns None when fewer than `bits` bits are available and never yields then")
@@ -190,11 +188,18 @@ def zero_width_wiring(ctx, prog, rule):
     oki = True
     n = 0
     for bi, t in f.calls(lambda c, t: c.startswith("bitpack::BitPack::unpack")):
-        s = strip(R.operand(t["args"][0]))
-        q = strip(R.operand(t["args"][-1]))
+        import elems
+        se = elems.elem_of(R.operand(t["args"][0]))
+        qe = elems.elem_of(R.operand(t["args"][-1]))
         n += 1
-        if not (s[0] == "call" and q[0] == "call" and self_field(s[2][0]) == "byte_streams" and self_field(q[2][0]) == "queues" and strip(s[2][1]) == strip(q[2][1])):
+        if not (se is not None and qe is not None and self_field(strip(se[0])) == "byte_streams" and self_field(strip(qe[0])) == "queues"
+                and not se[1] and not qe[1] and elems.same_position(se, qe)):
             oki = False
+        if len(t["args"]) == 4:
+            # (min, max) of the prototype record at the same position
+            me = elems.elem_of(R.operand(t["args"][1]))
+            if not (me is not None and "prototype" in tree_str(strip(me[0])) and elems.same_position(me, se)):
+                oki = False
     ctx.ob(rule, "zero-width/stream-queue-pairing", oki and n == 4, "byte_streams[i] is unpacked into queues[i] for the same i (%d sites)" % n)
 
 
